@@ -1,9 +1,26 @@
 package c13
 
 import (
+	"os"
+	"runtime"
+	"runtime/debug"
+	"strconv"
 	"testing"
 
 	"verifharness/evid"
 )
 
-func TestMain(m *testing.M) { evid.Main(m, "C13") }
+var ballast []byte
+
+func TestMain(m *testing.M) {
+	gc, _ := strconv.Atoi(os.Getenv("C13_GC"))
+	bl, _ := strconv.Atoi(os.Getenv("C13_BALLAST"))
+	if gc > 0 {
+		debug.SetGCPercent(gc)
+	}
+	if bl > 0 {
+		ballast = make([]byte, bl<<20)
+	}
+	evid.Main(m, "C13")
+	runtime.KeepAlive(ballast)
+}
